@@ -20,19 +20,21 @@ import TrompModel.Lemmas.Ring
 namespace Tromp.C14Ring
 open Tromp.Ring
 
+variable {P : Type} [DecidableEq P]
+
 /-- the states some legal script leads to from the empty heap (every element freshly constructed). -/
-def Reachable (a : Abs) (h : Heap) : Prop :=
-  ∃ ops : List Op, legalRun Abs.init ops ∧ run (Abs.init, Heap.init) ops = (a, h)
+def Reachable (a : Abs P) (h : Heap P) : Prop :=
+  ∃ ops : List (Op P), legalRun Abs.init ops ∧ run (Abs.init, Heap.init) ops = (a, h)
 
 /-- **C14 (ring), refinement.**  After any legal script the heap represents the abstract lists. -/
-theorem ring_refines_lists {a : Abs} {h : Heap} (r : Reachable a h) : Rep h a := by
+theorem ring_refines_lists {a : Abs P} {h : Heap P} (r : Reachable a h) : Rep h a := by
   obtain ⟨ops, lg, e⟩ := r
   have := rep_run rep_init ops lg
   rw [e] at this; exact this
 
 /-- **C14 (ring), observation.**  `for (auto& e : list)` — `begin()`, `++`, `end()` — visits exactly the abstract
     list, in order; following `prev` visits it in reverse; `empty()` is emptiness. -/
-theorem iteration_is_list {a : Abs} {h : Heap} (r : Reachable a h) (hd : Ptr) (hm : hd ∈ a.heads) (k : Nat) :
+theorem iteration_is_list {a : Abs P} {h : Heap P} (r : Reachable a h) (hd : P) (hm : hd ∈ a.heads) (k : Nat) :
     toList h hd ((a.lists hd).length + 1 + k) = a.lists hd ∧
     toListBack h hd ((a.lists hd).length + 1 + k) = (a.lists hd).reverse ∧
     isEmpty hd h = (a.lists hd).isEmpty :=
@@ -40,7 +42,7 @@ theorem iteration_is_list {a : Abs} {h : Heap} (r : Reachable a h) (hd : Ptr) (h
   ⟨toList_ring R k, toListBack_ring R k, isEmpty_ring R⟩
 
 /-- **C14 (ring), `is_linked()`** of an element is membership of some list. -/
-theorem isLinked_iff_member {a : Abs} {h : Heap} (r : Reachable a h) (x : Ptr) (hx : x ∉ a.heads) :
+theorem isLinked_iff_member {a : Abs P} {h : Heap P} (r : Reachable a h) (x : P) (hx : x ∉ a.heads) :
     isLinked x h = true ↔ ∃ hd ∈ a.heads, x ∈ a.lists hd := by
   have R := ring_refines_lists r
   constructor
@@ -72,7 +74,7 @@ theorem isLinked_iff_member {a : Abs} {h : Heap} (r : Reachable a h) (x : Ptr) (
 /-- **C14 (ring), no reference to a removed element survives.**  After `unlink` (the whole of `~list_elem()`), no
     `next` or `prev` member of any *other* address holds the removed element's address — destroying it afterwards
     leaves no dangling pointer in any ring. -/
-theorem unlinked_unreferenced {a : Abs} {h : Heap} (r : Reachable a h) (x : Ptr) (hx : x ∉ a.heads) (y : Ptr) (hy : y ≠ x) :
+theorem unlinked_unreferenced {a : Abs P} {h : Heap P} (r : Reachable a h) (x : P) (hx : x ∉ a.heads) (y : P) (hy : y ≠ x) :
     (unlink x h).next y ≠ x ∧ (unlink x h).prev y ≠ x := by
   have R' : Rep (unlink x h) (a.step (.unlink x)) := rep_unlink (ring_refines_lists r) hx
   have nx : ¬ (a.step (.unlink x)).used x := by
@@ -94,13 +96,13 @@ theorem unlinked_unreferenced {a : Abs} {h : Heap} (r : Reachable a h) (x : Ptr)
 
 /-- **C14 (ring), destruction of an unlinked element is local**: `~list_elem()` on an element that is on no list
     changes no pointer at all. -/
-theorem dtor_of_unlinked_is_noop {a : Abs} {h : Heap} (r : Reachable a h) (x : Ptr) (hx : ¬ a.used x) :
+theorem dtor_of_unlinked_is_noop {a : Abs P} {h : Heap P} (r : Reachable a h) (x : P) (hx : ¬ a.used x) :
     unlink x h = h :=
   unlink_of_selfLinked ((ring_refines_lists r).free x hx)
 
 /-- **C14 (ring), move.**  `list(list&&)`: the new list object holds the old one's elements in the same order, the
     old one is empty and unlinked, every other list is untouched. -/
-theorem move_transfers_ring {a : Abs} {h : Heap} (r : Reachable a h) (new old : Ptr) (lg : a.legal (.moveList new old)) :
+theorem move_transfers_ring {a : Abs P} {h : Heap P} (r : Reachable a h) (new old : P) (lg : a.legal (.moveList new old)) :
     let h' := moveAssign new old h
     toList h' new ((a.lists old).length + 1) = a.lists old ∧ SelfLinked h' old ∧
     ∀ hd ∈ a.heads, hd ≠ old → toList h' hd ((a.lists hd).length + 1) = a.lists hd := by
@@ -119,7 +121,7 @@ theorem move_transfers_ring {a : Abs} {h : Heap} (r : Reachable a h) (new old : 
     rw [e] at this; exact toList_ring this 0
 
 /-- the translator's "walk a snapshot, pop the front each round" idiom is sound on a represented ring. -/
-theorem pop_front_idiom {h : Heap} {hd x : Ptr} {l : List Ptr} (r : IsRing h hd (x :: l)) :
+theorem pop_front_idiom {h : Heap P} {hd x : P} {l : List P} (r : IsRing h hd (x :: l)) :
     h.next hd = x ∧ IsRing (unlink x h) hd l := ring_pop_front r
 
 
@@ -132,16 +134,16 @@ are well formed after a push, the pushed element cannot have been on a list befo
 
 /-- the list family is well formed: distinct list objects, each list duplicate-free and not containing its own list
     object, different lists (list objects included) share no address.  (`Rep` without the heap.) -/
-structure AbsWf (a : Abs) : Prop where
+structure AbsWf (a : Abs P) : Prop where
   heads_nodup : a.heads.Nodup
   nodup : ∀ hd ∈ a.heads, (hd :: a.lists hd).Nodup
   disj : ∀ hd1 ∈ a.heads, ∀ hd2 ∈ a.heads, hd1 ≠ hd2 → ∀ y ∈ hd1 :: a.lists hd1, y ∉ hd2 :: a.lists hd2
 
-theorem absWf_of_rep {h : Heap} {a : Abs} (R : Rep h a) : AbsWf a :=
+theorem absWf_of_rep {h : Heap P} {a : Abs P} (R : Rep h a) : AbsWf a :=
   ⟨R.heads_nodup, fun hd hm => (R.rings hd hm).2, R.disj⟩
 
 /-- **a push is legal whenever its result is well formed.** -/
-theorem push_legal_of_wf_post (a : Abs) (hd t : Ptr) (front : Bool) (hm : hd ∈ a.heads)
+theorem push_legal_of_wf_post (a : Abs P) (hd t : P) (front : Bool) (hm : hd ∈ a.heads)
     (post : AbsWf (a.step (if front then .pushFront hd t else .pushBack hd t))) :
     a.legal (if front then .pushFront hd t else .pushBack hd t) := by
   have key : ¬ a.used t := by
@@ -176,7 +178,7 @@ theorem push_legal_of_wf_post (a : Abs) (hd t : Ptr) (front : Bool) (hm : hd ∈
   · exact ⟨hm, key⟩
 
 /-- **a move is legal whenever its result is well formed** (and the target is not the source). -/
-theorem move_legal_of_wf_post (a : Abs) (new old : Ptr) (hm : old ∈ a.heads) (hne : new ≠ old)
+theorem move_legal_of_wf_post (a : Abs P) (new old : P) (hm : old ∈ a.heads) (hne : new ≠ old)
     (post : AbsWf (a.step (.moveList new old))) : a.legal (.moveList new old) := by
   refine ⟨hm, ?_⟩
   rintro ⟨hd2, h2, m⟩
@@ -207,7 +209,7 @@ theorem move_legal_of_wf_post (a : Abs) (new old : Ptr) (hm : old ∈ a.heads) (
 
 
 /-- a new list object is legal whenever the result is well formed. -/
-theorem newList_legal_of_wf_post (a : Abs) (hd : Ptr) (post : AbsWf (a.step (.newList hd))) : a.legal (.newList hd) := by
+theorem newList_legal_of_wf_post (a : Abs P) (hd : P) (post : AbsWf (a.step (.newList hd))) : a.legal (.newList hd) := by
   rintro ⟨hd2, h2, m⟩
   by_cases e : hd2 = hd
   · subst e
@@ -221,7 +223,7 @@ theorem newList_legal_of_wf_post (a : Abs) (hd : Ptr) (post : AbsWf (a.step (.ne
 
 /-- the part of legality that is not about well-formedness: list objects are used as list objects and elements as
     elements (in the library: by their C++ types), and `~list()` of an `ignore_disposer` list runs only on an empty one. -/
-def _root_.Tromp.Ring.Abs.typed (a : Abs) : Op → Prop
+def _root_.Tromp.Ring.Abs.typed (a : Abs P) : Op P → Prop
   | .newList _ => True
   | .pushFront hd _ => hd ∈ a.heads
   | .pushBack hd _ => hd ∈ a.heads
@@ -233,7 +235,7 @@ def _root_.Tromp.Ring.Abs.typed (a : Abs) : Op → Prop
 /-- **every operation whose result is a well-formed list family is legal** — so a script all of whose intermediate
     list families are well formed (what the World invariant `WF` asserts of the World's lists) is a legal ring script, and
     `ring_refines_lists` applies to it. -/
-theorem legal_of_wf_post (a : Abs) (op : Op) (ht : a.typed op) (post : AbsWf (a.step op)) : a.legal op := by
+theorem legal_of_wf_post (a : Abs P) (op : Op P) (ht : a.typed op) (post : AbsWf (a.step op)) : a.legal op := by
   cases op with
   | newList hd => exact newList_legal_of_wf_post a hd post
   | pushFront hd t => exact push_legal_of_wf_post a hd t true ht post
@@ -244,39 +246,39 @@ theorem legal_of_wf_post (a : Abs) (op : Op) (ht : a.typed op) (post : AbsWf (a.
   | disposeList hd => exact ht
 
 /-- every operation of the script is well typed and leaves a well-formed list family. -/
-def WfRun : Abs → List Op → Prop
+def WfRun : Abs P → List (Op P) → Prop
   | _, [] => True
   | a, op :: ops => a.typed op ∧ AbsWf (a.step op) ∧ WfRun (a.step op) ops
 
-theorem legalRun_of_wfRun (a : Abs) (ops : List Op) (h : WfRun a ops) : legalRun a ops := by
+theorem legalRun_of_wfRun (a : Abs P) (ops : List (Op P)) (h : WfRun a ops) : legalRun a ops := by
   induction ops generalizing a with
   | nil => trivial
   | cons op ops ih => exact ⟨legal_of_wf_post a op h.1 h.2.1, ih _ h.2.2⟩
 
 /-- **C14 (ring), from the lists' well-formedness to the heap.**  A script whose list families are well formed throughout
     is realised by the C++ ring operations: the heap represents the lists after it. -/
-theorem heap_realises_wf_script (ops : List Op) (h : WfRun Abs.init ops) :
+theorem heap_realises_wf_script (ops : List (Op P)) (h : WfRun Abs.init ops) :
     Rep (run (Abs.init, Heap.init) ops).2 (run (Abs.init, Heap.init) ops).1 :=
   rep_run rep_init ops (legalRun_of_wfRun _ ops h)
 
 /-! ### non-vacuity: a concrete script with two lists, pushes at both ends, removal from the middle, a move, a disposal -/
 
-instance decLegalRun : (a : Abs) → (ops : List Op) → Decidable (legalRun a ops)
+instance decLegalRun : (a : Abs P) → (ops : List (Op P)) → Decidable (legalRun a ops)
   | _, [] => isTrue trivial
   | a, op :: ops => by
     unfold legalRun
     exact @instDecidableAnd _ _ _ (decLegalRun (a.step op) ops)
 
-def demoOps : List Op :=
+def demoOps : List (Op Nat) :=
   [.newList 0, .newList 1, .pushBack 0 10, .pushFront 0 11, .pushBack 1 20, .pushBack 0 12, .unlink 10,
    .moveList 2 0, .pushFront 2 10, .unlink 20, .dropList 1, .disposeList 2]
 
-example : legalRun Abs.init demoOps := by decide
-example : (run (Abs.init, Heap.init) (demoOps.take 9)).1.heads = [2, 1] := by decide
-example : (run (Abs.init, Heap.init) (demoOps.take 9)).1.lists 2 = [10, 11, 12] := by decide
-example : toList (run (Abs.init, Heap.init) (demoOps.take 9)).2 2 4 = [10, 11, 12] := by decide
-example : toListBack (run (Abs.init, Heap.init) (demoOps.take 9)).2 2 4 = [12, 11, 10] := by decide
-example : Reachable (run (Abs.init, Heap.init) demoOps).1 (run (Abs.init, Heap.init) demoOps).2 :=
+example : legalRun (Abs.init : Abs Nat) demoOps := by decide
+example : (run ((Abs.init : Abs Nat), (Heap.init : Heap Nat)) (demoOps.take 9)).1.heads = [2, 1] := by decide
+example : (run ((Abs.init : Abs Nat), (Heap.init : Heap Nat)) (demoOps.take 9)).1.lists 2 = [10, 11, 12] := by decide
+example : toList (run ((Abs.init : Abs Nat), (Heap.init : Heap Nat)) (demoOps.take 9)).2 2 4 = [10, 11, 12] := by decide
+example : toListBack (run ((Abs.init : Abs Nat), (Heap.init : Heap Nat)) (demoOps.take 9)).2 2 4 = [12, 11, 10] := by decide
+example : Reachable (run ((Abs.init : Abs Nat), (Heap.init : Heap Nat)) demoOps).1 (run ((Abs.init : Abs Nat), (Heap.init : Heap Nat)) demoOps).2 :=
   ⟨demoOps, by decide, rfl⟩
 
 end Tromp.C14Ring
